@@ -16,25 +16,32 @@ META = dict(
                "with any content is invisible to every sum over the padded axis; agreement on observed positions is closed under every "
                "tree of binary (weight propagation/expansion, error on differing weights), unary, map, index_put, view, expand operations; "
                "per-individual attachment of any point-wise nll independent of masked y, masked model values and padding; counts = numbers of "
-               "weight-1 cells; model tensor exactly 0 at weight-0 visits.  Scalar noise rule: REFUTED (finding F3, witness replayed on the "
-               "code).  Diagonal noise rule: partial (ingredients), completed by the correspondence and the from-scratch oracle.",
+               "weight-1 cells; model tensor exactly 0 at weight-0 visits; noise estimates use observed entries only: FULL theorem for BOTH update "
+               "rules (scalar and per feature) — the updated variance is unchanged (or the rule fails identically) when y changes under the mask "
+               "(any atoms, NaN/inf included) and the model tensor changes where y is not observed, or when visits of weight 0 with any content are "
+               "appended.  (The former scalar rule summed model^2 without "
+               "the mask — finding F3, repaired upstream by 3d244df; the check reports it as a violation with a 2x1x2 witness if it comes back.)",
     level_note="Trusted: Coq kernel (no axioms: every theorem is closed under the global context); the hand-written model is tied to the code "
                "by exact differential execution (not regenerated): torch kernels (broadcasting, sum, masked_fill, index_put, view/expand) are "
                "modelled and checked by that execution, not verified; atoms have no rounding/overflow/signed zero (the tie keeps inputs "
-               "exactly representable); put_data_variables / model_with_sources / noise rules are mirrored by hand and exercised by the "
-               "metamorphic oracles on real fits of every shipped kind.",
+               "exactly representable); the two noise update rules are mirrored by hand and tied on every run: the real statistics + update rule "
+               "(wiring of with_noise_std_as_model_parameter, variance recorded at compute_std_from_variance) against noise_var_scalar / "
+               "noise_var_diagonal inside Coq on small exact float64 inputs (equal up to the rounding of the final division, 2^-52 relative; "
+               "non-finite entries identical); the positivity check and the square root after the variance are not modelled; "
+               "put_data_variables weights tied the same way; model_with_sources mirrored by hand and exercised by the metamorphic "
+               "oracles on real fits of every shipped kind.",
     design_ref="DESIGN.md section 4 C06",
 )
 
 OBLIGATIONS = [
     "C06_wsum_ignores_masked", "C06_wsum_dim_ignores_masked", "C06_sum_dim_ignores_masked", "C06_padding", "C06_padding_plain",
     "C06_observed_closed", "C06_attach", "C06_attach_padding", "C06_counts", "C06_counts_ignore_values",
-    "C06_model_zero_on_padding", "C06_model_ignores_masked_times", "C06_noise_observed_only_partial", "C06_noise_scalar_refuted",
+    "C06_model_zero_on_padding", "C06_model_ignores_masked_times", "C06_noise_observed_only", "C06_noise_ingredients_observed_only", "C06_noise_padding",
 ]
 
 HDR = ("From Coq Require Import List NArith ZArith QArith Bool.\nFrom Leaspy Require Import Base.Atoms Masked.Weighted.\n"
        "Import ListNotations.\nLocal Close Scope Q_scope.\n")
-F3 = "scalar-noise:model-sq-over-unobserved"
+F3 = P.F3
 
 
 def api_tie(run: Run, n: int):
@@ -75,38 +82,6 @@ def api_tie(run: Run, n: int):
     return bad
 
 
-def witness_on_code(run: Run):
-    """Replay the Coq witness of C06_noise_scalar_refuted on the real update rule."""
-    from harness.common import use_impl
-    use_impl()
-    import torch
-    from leaspy.utils.weighted_tensor import WeightedTensor, wsum_dim
-    from leaspy.models.obs_models import FullGaussianObservationModel as G
-    y = WeightedTensor(torch.tensor([[[1.0, 0.0]], [[2.0, 3.0]]]), torch.tensor([[[True, False]], [[True, True]]]))
-    out = {}
-    for name, m in (("model_a", [[[1.0, 5.0]], [[2.0, 3.0]]]), ("model_b", [[[1.0, 0.0]], [[2.0, 3.0]]])):
-        model = torch.tensor(m)
-        y2 = y ** 2
-        l2, n = wsum_dim(y2)
-        state = {"y_L2": l2, "n_obs": n}
-        try:
-            v = G.scalar_noise_std_update(state=state, y_x_model=y * model, model_x_model=model ** 2)
-            out[name] = float(v) ** 2
-        except Exception as e:  # variance 0 -> convergence error for model_b is possible
-            out[name] = f"{type(e).__name__}"
-    run.case(("witness", "noise-scalar"))
-    run.extra["witness_noise_scalar"] = out
-    a = out["model_a"]
-    if isinstance(a, float) and abs(a - 25.0 / 3.0) < 1e-4:
-        run.fail(F3, "scalar_noise_std_update sums model^2 over entries of real visits where y is missing "
-                     "(witness 2x1x2: variance 25/3 instead of 0 = residual mean square over observed entries)",
-                 dict(scenario="witness", y=[[[1.0, None]], [[2.0, 3.0]]], model=[[[1.0, 5.0]], [[2.0, 3.0]]]), expected=0.0, observed=a)
-    elif isinstance(a, float) and abs(a) < 1e-6:
-        pass  # repaired upstream: the witness no longer reproduces
-    else:
-        run.fail("scalar-noise:witness-differs-from-model", f"witness evaluates to {a!r} on the code, 25/3 in the model", dict(scenario="witness"))
-
-
 def main(run: Run):
     thorough = run.tier == "thorough"
     run.prove("C06", OBLIGATIONS)
@@ -117,16 +92,21 @@ def main(run: Run):
                 "representable; bool or integer weights with ~40% zeros and whole zero slices (empty aggregates). Non-trivial = a leaf has a "
                 "zero weight or the outcome is an error. (2) real fits of every shipped kind on a cohort with missing entries, whole features "
                 "and whole visits missing: garbage {0, 7.5, 1e30, NaN, inf} under the mask and in padded slots (bit-identical), 1-5 extra "
-                "padded visits (1e-6), one individual alone vs in the batch (1e-5), counts, noise update vs RMS over observed entries.")
+                "padded visits (1e-6), one individual alone vs in the batch (1e-5), counts, noise update vs RMS over observed entries. "
+                "(3) noise rules: the F3 witness + random y (1-3 individuals x 1-3 visits x 1-3 features, half-integers in [-3, 3], 15-70% missing, "
+                "{0, 7.5, -2, 1e30, NaN, +-inf} under the mask) and model tensors (half-integers; garbage incl. NaN/inf where y is missing) through "
+                "the real scalar / diagonal update rule and through the Coq model. Non-trivial = the model tensor is not 0 at some missing entry.")
     run.explanation = ("Theorems are about the executable model in coq/theories/Masked; the model is tied to the current source by running the same "
                        "operation trees through leaspy.utils.weighted_tensor and through the model inside Coq with exact comparison, and the "
-                       "pipeline-level statements (put_data_variables, model tensor, attachment, noise rules) by metamorphic oracles on real runs.")
-    run.assumptions += ["atoms have no rounding: the differential inputs are kept exactly representable in float64",
+                       "pipeline-level statements by the same kind of differential execution (put_data_variables weights, the two noise update rules) and "
+                       "by metamorphic oracles on real runs (model tensor, attachment, statistics, parameters, personalisation).")
+    run.assumptions += ["atoms have no rounding: the differential inputs are kept exactly representable in float64 (noise rules: every operation but the "
+                        "final division by the count is exact on the generated inputs; that division is compared up to 2^-52 relative, inside Coq)",
                         "torch kernels are modelled (broadcast, sum, masked_fill, index_put, view, expand), checked by execution only"]
-    run.trusted.append("hand-written model coq/theories/Masked/{Weighted,Pipeline}.v tied by exact differential execution (harness/props/c06_api.py)")
+    run.trusted.append("hand-written model coq/theories/Masked/{Weighted,Pipeline}.v tied by exact differential execution (harness/props/c06_api.py; noise rules and put_data_variables: harness/props/c06_pipeline.py)")
     api_tie(run, 50000 if thorough else 3000)
-    witness_on_code(run)
     try:
+        P.noise_tie(run, 4000 if thorough else 400)
         P.put_data_tie(run, 400 if thorough else 60)
         P.run_oracle(run, thorough)
     except Exception as e:  # noqa: BLE001
@@ -150,11 +130,18 @@ def replay(run: Run, path: str):
         bad = run.vm_bad_indices("replay", HDR, "list lit * expr * query * outcome", [A.coq_case(c, res)], "check_case") if res[0] != "X" else [0]
         print("REPLAY", "FAILS (model disagrees)" if bad else "passes")
         return 1 if bad else 0
-    if sc == "witness":
-        witness_on_code(run)
-        print(run.extra.get("witness_noise_scalar"))
-        fails = bool(run._fails or run._known_hit)
-        print("REPLAY", "FAILS" if fails else "passes")
+    if sc in ("witness", "noise-tie"):
+        v, m, mod = P.noise_case_tensors(inp)
+        for diagonal in ([inp["rule"] == "diagonal"] if "rule" in inp else [False, True]):
+            res = P.noise_on_code(v, m, mod, diagonal)
+            print("implementation,", "diagonal" if diagonal else "scalar", "rule: variance =", res[1].tolist() if res[0] == "V" else res)
+        P.noise_tie(run, 0, only=[inp])
+        for f in run._fails:
+            print("FAIL", f["signature"], f["what"])
+        for s, w in run._known_hit.items():
+            print("KNOWN", s, w)
+        fails = bool(run._fails or run._known_hit or run._broken)
+        print("REPLAY", "FAILS (the code does not compute the model's variance)" if fails else "passes")
         return 1 if fails else 0
     if sc in ("garbage", "padding", "alone", "noise"):
         cfg = (inp["kind"], inp["noise"], inp["source_dimension"], inp["n_feat"])
